@@ -39,7 +39,11 @@ pub fn gen_text(rng: &mut Rng, max: usize) -> String {
 }
 
 pub fn gen_id(rng: &mut Rng) -> String {
-    let fixed = ["", "A", "AB", "ABC", "ECU1", "APP", "CON", "é", "éé", "€1", "𝄞", "T\u{7f}", "DLT\u{1}", "ab c"];
+    let fixed = [
+        "", "A", "AB", "ABC", "ECU1", "APP", "CON", "é", "éé", "€1", "𝄞", "T\u{7f}", "DLT\u{1}", "ab c",
+        // trim-/case-/padding-sensitive ids: trailing and leading blanks, tab, NBSP, NEL, lower/upper twins
+        "AP  ", "CT\t", "E1 ", " X", "A\u{a0}", "B\u{85}", "app", "App", "AP", "CT", "E1", "A\n", "\r",
+    ];
     if rng.chance(1, 2) {
         rng.pick(&fixed).to_string()
     } else {
